@@ -490,6 +490,46 @@ def table_case(run, seed, idx, mods, big=False):
                 if ans != (None, None) or not (np.array_equal(gi, ei) and np.array_equal(gj, ej) and
                                                np.array_equal(gd, np.asarray(tab.rc[2]))):
                     V("find_uniq:outputfile", "graph file written by find_uniq(outputfile=) is not the table's pair list")
+                # ---- the DataSet route to the same tables (ds.pk2d / ds.pk4d with a monitor normalisation): the per-frame
+                # scale is monitor_ref / monitor; the reference value is changed on the same object (same counter)
+                try:
+                    from ImageD11.sinograms import dataset
+                    dsd = os.path.join(d, "dsroot")
+                    with contextlib.redirect_stdout(io.StringIO()):
+                        dso = dataset.DataSet(dataroot=dsd, analysisroot=dsd, sample="smp", dset="ds1")
+                        os.makedirs(dso.datapath, exist_ok=True)
+                        os.makedirs(os.path.dirname(dso.pksfile), exist_ok=True)
+                        dso.scans = ["%d.1" % (k_ + 1) for k_ in range(omega.shape[0])]
+                        dso.shape = omega.shape
+                        dso.omega = omega.copy()
+                        dso.omega_for_bins = dso.omega
+                        dso.dty = dty.copy()
+                        mon = r2.uniform(5e4, 2e5, omega.shape)
+                        with h5py.File(dso.masterfile, "w") as hm:
+                            for k_, sc_ in enumerate(dso.scans):
+                                hm.create_dataset(sc_ + "/measurement/fpico6", data=mon[k_])
+                        tab.find_uniq()
+                        tab.save(dso.pksfile)
+                        for refv in (float(np.mean(mon)), 1e5, 3.0e4):
+                            dso.set_monitor("fpico6", ref_value_func=(lambda m_, v_=refv: v_))
+                            got4, got2 = dso.pk4d, dso.pk2d
+                            sf = refv / mon
+                            want4 = tab.pk2dmerge(omega, dty, scale_factor=sf)
+                            want2 = tab.pk2d(omega, dty, scale_factor=sf)
+                            run.count("dataset_monitor_normalisations")
+                            for what, gt, wt in (("pk4d", got4, want4), ("pk2d", got2, want2)):
+                                if not np.allclose(np.asarray(gt["sum_intensity"], float), np.asarray(wt["sum_intensity"], float),
+                                                   rtol=1e-12, atol=0):
+                                    V("dataset:monitor-scale:" + what, "DataSet.%s after set_monitor(reference value %g) carries sum_intensity "
+                                      "that is not scaled by reference/monitor of the peaks' frames (ratio to the expected values %.6g)"
+                                      % (what, refv, float(np.median(np.asarray(gt["sum_intensity"], float) /
+                                                                     np.asarray(wt["sum_intensity"], float)))))
+                                    raise StopIteration
+                except StopIteration:
+                    pass
+                except Exception as e:
+                    run.count("dataset_route_raised")
+                    run.extra.setdefault("dataset_route_raised", "%s: %s" % (type(e).__name__, str(e)[:300]))
                 del t2
             finally:
                 shutil.rmtree(d, ignore_errors=True)
@@ -552,6 +592,7 @@ def check(run, replay=None):
     for k in ("low-high", "high-low", "mixed"):
         run.require_counter("tables_edges_" + k, 5)
     run.require_counter("big_tables", 1)
+    run.require_counter("dataset_monitor_normalisations", 9)
     run.require_counter("save_load_roundtrips", 10)
     run.require_counter("graph_file_writes", 10)
 
